@@ -64,7 +64,8 @@ def replay_behaviour(digital_rf, root, beh, real, rng, seed, name, dtype=None, c
         last = tlc.tla_to_py(st["last"])
         a = last["a"]
         if a == "Open":
-            ch.open(last["d"], last["start"], last["pid"])
+            if not ch.open(last["d"], last["start"], last["pid"]):
+                break       # refused where the behaviour opens a session: the trace says so, the rest cannot be executed
             is_open = True
             touched.add(last["d"])
         elif a == "OpenRefused":
